@@ -128,7 +128,9 @@ impl Prop for C11 {
          inputs (empty data, reserved namespace); recon: honest share lists with 10 mutation classes (share dropped, sequence \
          start flipped, namespace/version of a continuation changed, parity/reserved first share, truncated list, extra shares); \
          rall: 1..4 blobs concatenated, reserved-namespace and parity shares inserted at random positions (also inside a blob), \
-         namespace padding between blobs. Non-trivial = every case; distinct = distinct (op, result) lines."
+         namespace padding between blobs; S10 size-threshold stress (tags big/…): blobs of exactly 15,16,17,31,32,33,63,64,65,127,128,129,255,256,257,511,512,513 \
+         shares (thorough: also 1023..1025, 2047..2049, 4097; exact fill / one byte short / short last share, alternating signer) each \
+         with one mutated reconstruction, and reconstruct_all over 9 / 17 / 33 / 65 (thorough ..257) blobs. Non-trivial = every case; distinct = distinct (op, result) lines."
     }
     fn gen_ops(&mut self, rng: &mut Rng, tier: Tier, out: &mut Emitter) {
         let lens: Vec<usize> = if tier == Tier::Thorough { (1..=4096).collect() } else { boundary_lengths() };
@@ -146,26 +148,45 @@ impl Prop for C11 {
             }
         }
         let rounds = if tier == Tier::Thorough { 600 } else { 40 };
-        for _ in 0..rounds {
+        // S10 size-threshold stress: blobs of 15..129 shares (thorough: up to 4097 shares) — before, no blob had more
+        // than 9 shares.  The Lean driver is the bottleneck (~5 ms per share in `model`, ~10 ms in `spec`), so the quick
+        // tier stops at 513 shares and every large blob gets ONE mutated reconstruction instead of three.
+        let big_counts: Vec<usize> = if tier == Tier::Thorough {
+            vec![15, 16, 17, 31, 32, 33, 63, 64, 65, 127, 128, 129, 255, 256, 257, 511, 512, 513, 1023, 1024, 1025, 2047, 2048, 2049, 4097]
+        } else {
+            vec![15, 16, 17, 31, 32, 33, 63, 64, 65, 127, 128, 129, 255, 256, 257, 511, 512, 513]
+        };
+        for r in 0..rounds + big_counts.len() {
+            let big = if r >= rounds { big_counts[r - rounds] } else { 0 };
             let ns = user_ns(rng);
-            let len = match rng.below(6) {
-                0 => rng.usize(1, 30),
-                1 => rng.usize(400, 520),
-                _ => rng.usize(1, 4096),
+            let with_signer = if big > 0 { r % 2 == 1 } else { rng.bool() };
+            let len = if big > 0 {
+                // exactly `big` shares: exact fill / one byte short / a short last share
+                let slack = [0, 1, rng.usize(2, 481)][r % 3];
+                (if with_signer { FIRST - SIGNER } else { FIRST }) + (big - 1) * CONT - slack
+            } else {
+                match rng.below(6) {
+                    0 => rng.usize(1, 30),
+                    1 => rng.usize(400, 520),
+                    _ => rng.usize(1, 4096),
+                }
             };
             let data = rng.bytes(len);
-            let with_signer = rng.bool();
             let signer_b = rng.bytes(20);
             let signer = if with_signer { hx(&signer_b) } else { "-".into() };
-            let app = rng.range(1, 7);
-            out.op(format!("blob ns={} data={} signer={signer} app={app}", hx(&ns), hx(&data)), "blob/random", true);
+            let app = if big > 0 && with_signer { rng.range(3, 7) } else { rng.range(1, 7) };
+            let tag = if big > 0 { format!("big/blob-{big}-shares") } else { "blob/random".to_string() };
+            out.op(format!("blob ns={} data={} signer={signer} app={app}", hx(&ns), hx(&data)), &tag, true);
 
             // adversarial reconstruct on the honest shares
             let app_ok = AppVersion::latest();
             let acc = if with_signer { Some(AccAddress::try_from(&signer_b[..]).unwrap()) } else { None };
             let blob = Blob::new(Namespace::from_raw(&ns).unwrap(), data.clone(), acc, app_ok).unwrap();
             let shares = blob.to_shares().unwrap();
-            for _ in 0..3 {
+            if big > 0 {
+                assert_eq!(shares.len(), big);
+            }
+            for _ in 0..(if big > 0 { 1 } else { 3 }) {
                 let mut l = shares.clone();
                 let tag = match rng.below(11) {
                     0 => {
@@ -227,13 +248,17 @@ impl Prop for C11 {
                     }
                     _ => "recon/honest",
                 };
-                out.op(format!("recon shares={} app={}", show_shares(&l), rng.range(1, 7)), tag, true);
+                let tag = if big > 0 { format!("big/{tag}") } else { tag.to_string() };
+                out.op(format!("recon shares={} app={}", show_shares(&l), rng.range(1, 7)), &tag, true);
             }
         }
         // reconstruct_all
         let rounds = if tier == Tier::Thorough { 300 } else { 60 };
-        for _ in 0..rounds {
-            let nblobs = rng.usize(1, 4);
+        // S10: plus share lists of 9 / 17 / 33 / 65 (thorough also 8 / 16 / 32 / 64 / 129 / 257) small blobs
+        let big_nblobs: Vec<usize> = if tier == Tier::Thorough { vec![8, 9, 16, 17, 32, 33, 64, 65, 129, 257] } else { vec![9, 17, 33, 65] };
+        for r in 0..rounds + big_nblobs.len() {
+            let big = if r >= rounds { big_nblobs[r - rounds] } else { 0 };
+            let nblobs = if big > 0 { big } else { rng.usize(1, 4) };
             let mut nss: Vec<Vec<u8>> = (0..nblobs).map(|_| user_ns(rng)).collect();
             nss.sort();
             let mut all: Vec<Share> = vec![];
@@ -243,7 +268,7 @@ impl Prop for C11 {
                 let len = match rng.below(4) {
                     0 => rng.usize(1, 20),
                     1 => rng.usize(450, 500),
-                    _ => rng.usize(1, 1500),
+                    _ => rng.usize(1, if big > 0 { 700 } else { 1500 }),
                 };
                 let data = rng.bytes(len);
                 let acc = if rng.bool() { Some(AccAddress::try_from(&rng.bytes(20)[..]).unwrap()) } else { None };
@@ -270,7 +295,7 @@ impl Prop for C11 {
             let app = if any_signer { rng.range(3, 7) } else { rng.range(1, 7) };
             out.op(
                 format!("rall shares={} app={} expect={}", show_shares(&all), app, expect.join(";")),
-                "rall/interleaved",
+                if big > 0 { "big/rall-many-blobs" } else { "rall/interleaved" },
                 true,
             );
         }
